@@ -41,8 +41,8 @@ func (x *Exec) exec(fr *frame, ins ssa.Instruction) {
 		fr.regs[ins] = &Closure{Fn: ins.Fn.(*ssa.Function), Env: env}
 	case *ssa.MakeSlice:
 		et := ins.Type().Underlying().(*types.Slice).Elem()
-		n := x.cint(x.get(fr, ins.Len).(*term.Term), "make len")
-		cp := x.cint(x.get(fr, ins.Cap).(*term.Term), "make cap")
+		n := x.cint(x.toInt64(x.get(fr, ins.Len).(*term.Term), ins.Len.Type()), "make len")
+		cp := x.cint(x.toInt64(x.get(fr, ins.Cap).(*term.Term), ins.Cap.Type()), "make cap")
 		if n < 0 || cp < n {
 			x.goPanic("makeslice: len out of range", nil)
 		}
@@ -809,11 +809,11 @@ func (x *Exec) mapOrders(n int) [][]int {
 func (x *Exec) concretizeChoice(n int, what string) int64 {
 	if d, ok := x.nextDecision(); ok {
 		x.taken = append(x.taken, d)
+		x.replayed()
 		return d.Val
 	}
 	for v := 1; v < n; v++ {
-		alt := append(append([]Decision(nil), x.taken...), Decision{int64(v), true})
-		x.alts = append(x.alts, alt)
+		x.schedule(Decision{int64(v), true}, x.model)
 	}
 	x.taken = append(x.taken, Decision{0, true})
 	return 0
